@@ -661,8 +661,53 @@ struct BulkWorld : World
     }
   }
 
+  // grant of a buffer of multi-byte elements: the copy path allocates in the sandbox, and the allocator is not trusted
+  // (F3 null, F4 a block whose last element starts inside the region and ends behind it)
+  template<class T>
+  void op_grant_typed(const Op& op)
+  {
+    uint64_t num = 1 + (uint64_t)op.a[2] % 16;
+    int fault = (int)((uint64_t)op.a[5] % 4);
+    g_fault.grant_refuse = 1; // always the copy path
+    g_fault.refuse_echoes_pointer = (((uint64_t)op.a[5] >> 2) & 1) != 0;
+    if (fault == 2)
+      g_fault.malloc_fail = 1;
+    if (fault == 3)
+      g_fault.malloc_straddle = 1;
+    T* src = reinterpret_cast<T*>(appbuf + 8 * ((uint64_t)op.a[4] % 16));
+    for (uint64_t i = 0; i < num; i++)
+      src[i] = (T)(i * 3 + 1);
+    Snap before = snap();
+    bool copied = false;
+    TP<T> got = nullptr;
+    Outcome o = guarded([&] { got = rlbox::copy_memory_or_grant_access(*sb[0], src, (size_t)num, false, copied); });
+    g_fault.clear();
+    C->ev("grant<%zu> num=%llu fault=%d -> %s copied=%d", sizeof(T), (unsigned long long)num, fault, oname(o), (int)copied);
+    C->probe("grant_of_multi_byte_elements");
+    Snap after = snap();
+    uintptr_t ga = (uintptr_t)got.UNSAFE_unverified();
+    if (o == OK && ga != 0) {
+      if (!in_region(0, ga, (unsigned __int128)num * sizeof(T))) {
+        C->violate("C10", "result_range_leaves_sandbox@grant_access", "%llu elements of %zu bytes at offset %lld", (unsigned long long)num, sizeof(T), (long long)(ga - (uintptr_t)impl[0]->mem.base));
+        return;
+      }
+      size_t roff = ga - (uintptr_t)impl[0]->mem.base;
+      if (diff_ok(before, after, { Range{ 0, roff, (size_t)num * sizeof(T) } }, "grant_access") && memcmp(&after.reg[0][roff], src, (size_t)num * sizeof(T)) != 0)
+        C->violate("C10", "request_not_carried_out@grant_access", "sandbox copy differs from the application buffer");
+    } else if (!C->stop) {
+      // refused / failed / straddling allocation: nothing may have been written anywhere
+      diff_ok(before, after, {}, "grant_access");
+    }
+  }
   void op_grant(const Op& op)
   {
+    if ((op.a[3] & 6) == 6) {
+      if (op.a[3] & 8)
+        op_grant_typed<double>(op);
+      else
+        op_grant_typed<short>(op);
+      return;
+    }
     uint64_t num = (uint64_t)op.a[2];
     if (num > APPMAX)
       num = (op.a[2] & 1) ? APPMAX : (uint64_t)op.a[2]; // keep some huge values
